@@ -1,170 +1,250 @@
 /-
 C01 — RPS schedules realise the configured load profile.
 
-Theorems are about the REGENERATED constructors (`Pandora.Gen.Schedule`, rewritten
-from /repo on every run), in exact real arithmetic; float64 rounding is measured
-by the sampling tie (harness `c01.go` + `Pandora.Drv.C01`), not proved.
-What `Sched.doAt D n f` means operationally (token k at start+f k for k<n, then
-(start+D,false) for ever) is the leaf model of C02 (`Model.Sched.doAtNext`), tied
-to `doAtSchedule.Next` by C02's correspondence.
+Every theorem is about the REGENERATED definitions of `Pandora.Gen.Schedule` (rewritten from /repo's current source on
+every run): the constructors `NewConstConf/NewLineConf/NewStepConf/NewOnceConf` (and what they call), the predicates
+`*_valid` read off the `validate` struct tags (= what config validation accepts), the `register.Limiter` table of
+`core/import`, and the `doAtSchedule` record with its `Start/Next/Left` methods. Arithmetic is exact real arithmetic:
+float64 rounding is *measured* by the sampling tie (harness `cmd/c01` + `Pandora.Spec.C01`), not proved.
+
+Clause → theorem (details in notes/C01.md):
+  valid = accepted by validation      C01_validation, C01_registry
+  rate integral                        C01_cum_is_integral
+  const: time of op k, count           C01_const
+  line (incr./decr./flat/zero ends)    C01_line   (C01_line_flat: from = to is the const profile)
+  step = one const per level           C01_step   (chaining of the parts: C02_seq_chain / C02_conc_*)
+  once                                 C01_once
+  bounds, finish, Left                 C01_leaf_run, C01_finish, C01_bounds, C01_left_before_start
 -/
-import Pandora.Bridge.Schedule
+import Pandora.Proofs.C01
+import Mathlib.Analysis.SpecialFunctions.Integrals.Basic
 
 namespace Pandora.Props.C01
-open Pandora Pandora.Gen.Schedule Pandora.Bridge.Schedule Pandora.Proofs.LineMath
+open Pandora Pandora.Gen.Schedule Pandora.Bridge.Schedule Pandora.Bridge.C01 Pandora.Proofs.LineMath Pandora.Proofs.C01
 
-/-- configured rate (ops/s) of `line(from,to,D)` at `x` seconds after its start -/
-noncomputable def lineRate (f t : ℝ) (D : ℤ) (x : ℝ) : ℝ := f + (t - f) * x / secs D
-/-- ∫₀ˣ lineRate -/
+/-! ### statement-level definitions -/
+
+/-- configured rate (ops/s) of `line(from,to,D)` at `x` seconds after its start: linear from `from` to `to` -/
+noncomputable def lineRate (f t : ℝ) (D : ℤ) (x : ℝ) : ℝ := f + (t - f) / secs D * x
+/-- ∫₀ˣ lineRate (see `C01_cum_is_integral`) -/
 noncomputable def lineCum (f t : ℝ) (D : ℤ) (x : ℝ) : ℝ := f * x + (t - f) * x ^ 2 / (2 * secs D)
 /-- ∫₀ˣ of the constant rate `ops` -/
 noncomputable def constCum (ops : ℝ) (x : ℝ) : ℝ := ops * x
 
-/-- `x` (seconds) is the earliest instant of the profile at which the integral `c` reaches `k` -/
+/-- `x` (seconds after the start) is the earliest instant of the profile at which the integral `c` reaches `k` -/
 def EarliestAt (c : ℝ → ℝ) (D : ℤ) (k : ℝ) (x : ℝ) : Prop :=
   0 ≤ x ∧ x ≤ secs D ∧ c x = k ∧ ∀ y, 0 ≤ y → y < x → c y < k
 
-/-- exactly what config validation accepts (`min=0`, `min-time=1ms`) -/
-structure Valid (f t : ℝ) (D : ℤ) : Prop where
-  from_nonneg : 0 ≤ f
-  to_nonneg : 0 ≤ t
-  dur : 1000000 ≤ D
+/-- "the constructor returned a leaf schedule of length `D` whose operation `k` (k = 0, 1, …) is scheduled at the
+ns-truncation of the earliest instant at which the integral `c` reaches `k`, which holds as many operations as the
+integral over the whole duration, rounded down, and none outside [0, D]" -/
+def Realises (s : Sched) (c : ℝ → ℝ) (D : ℤ) : Prop :=
+  ∃ (n : ℤ) (at_ : ℤ → ℤ), s = Sched.doAt D n at_ ∧ n = ⌊c (secs D)⌋ ∧
+    ∀ k : ℤ, 0 ≤ k → k < n →
+      ∃ x : ℝ, EarliestAt c D k x ∧ at_ k = ⌊x * 1000000000⌋ ∧ 0 ≤ at_ k ∧ at_ k ≤ D
 
-theorem lineCum_eq (f t : ℝ) (D : ℤ) (hD : 1000000 ≤ D) (x : ℝ) :
-    lineCum f t D x = cum (slope f t D) f x := by
-  have := (secs_pos hD).ne'
-  unfold lineCum cum slope; field_simp; ring
+/-- one `Next` per clock reading in `nows`, in sequence (`Except.error` = a panic) -/
+def drainFrom (s : DoAtSt) : List ℤ → Except String (List (ℤ × Bool))
+  | [] => Except.ok []
+  | now :: rest =>
+      match doAtSchedule_Next now s with
+      | Except.error e => Except.error e
+      | Except.ok (r, s') =>
+          match drainFrom s' rest with
+          | Except.error e => Except.error e
+          | Except.ok rs => Except.ok (r :: rs)
 
-theorem line_cfg {f t : ℝ} {D : ℤ} (h : Valid f t D) (hne : f ≠ t) : Cfg (slope f t D) f (secs D) := by
-  have hs := secs_pos h.dur
-  refine ⟨hs, ?_, h.from_nonneg, ?_⟩
-  · unfold slope; exact div_ne_zero (sub_ne_zero.mpr (Ne.symm hne)) hs.ne'
-  · have : slope f t D * secs D + f = t := by unfold slope; field_simp; ring
-    rw [this]; exact h.to_nonneg
+/-- what a caller observes from a fresh leaf `doAt D n f`: `Start t0`, then one `Next` per clock reading in `nows` -/
+def startAndDrain (D n : ℤ) (f : ℤ → ℤ) (t0 : ℤ) (nows : List ℤ) : Except String (List (ℤ × Bool)) :=
+  match doAtSchedule_Start (NewDoAtSchedule D n f) t0 with
+  | Except.error e => Except.error e
+  | Except.ok (_, s) => drainFrom s nows
 
-/-- **line**: count = ⌊∫ rate over the whole duration⌋ = ⌊(from+to)/2 · D⌋; operation k sits at the
-ns-truncation of the earliest instant where the integral reaches k; inside [0, D]. Every duration ≥ 1 ms. -/
-theorem C01_line (f t : ℝ) (D : ℤ) (h : Valid f t D) (hne : f ≠ t) :
-    ∃ (n : ℤ) (at_ : ℤ → ℤ), NewLine f t D = Sched.doAt D n at_ ∧
-      n = ⌊lineCum f t D (secs D)⌋ ∧
-      lineCum f t D (secs D) = (f + t) / 2 * secs D ∧
-      ∀ k : ℤ, 0 ≤ k → k < n →
-        ∃ x : ℝ, EarliestAt (lineCum f t D) D k x ∧ at_ k = ⌊x * 1000000000⌋ ∧ 0 ≤ at_ k ∧ at_ k ≤ D := by
-  have hc := line_cfg h hne
-  have hs := secs_pos h.dur
-  have hend : slope f t D * secs D + f = t := by unfold slope; field_simp; ring
-  have htot : cum (slope f t D) f (secs D) = (f + t) / 2 * secs D := by
-    rw [cum_total, hend]
-  have htot0 : 0 ≤ cum (slope f t D) f (secs D) := by
-    rw [htot]; have := h.from_nonneg; have := h.to_nonneg; positivity
-  refine ⟨_, _, NewLine_eq f t D hne, ?_, ?_, ?_⟩
-  · rw [lineCum_eq f t D h.dur, Go.f2i_of_nonneg htot0]
-  · rw [lineCum_eq f t D h.dur, htot]
-  · intro k hk0 hkn
-    rw [Go.f2i_of_nonneg htot0] at hkn
-    have hk0' : (0:ℝ) ≤ (k:ℝ) := by exact_mod_cast hk0
-    have hkle : (k:ℝ) ≤ cum (slope f t D) f (secs D) := by
-      have : ((k:ℤ):ℝ) < ⌊cum (slope f t D) f (secs D)⌋ := by exact_mod_cast hkn
-      exact le_of_lt (lt_of_lt_of_le this (Int.floor_le _))
-    have he := earliest_xk hc hk0' hkle
-    have hx0 := he.1
-    have hxs := he.2.1
-    refine ⟨xk (slope f t D) f k, ?_, ?_, ?_, ?_⟩
-    · refine ⟨hx0, hxs, ?_, ?_⟩
-      · rw [lineCum_eq f t D h.dur]; exact he.2.2.1
-      · intro y hy0 hyx; rw [lineCum_eq f t D h.dur]; exact he.2.2.2 y hy0 hyx
-    · exact Go.f2i_of_nonneg (by positivity)
-    · rw [Go.f2i_of_nonneg (by positivity)]; exact Int.floor_nonneg.mpr (by positivity)
-    · rw [Go.f2i_of_nonneg (by positivity)]
-      have : xk (slope f t D) f k * 1000000000 ≤ (D:ℝ) := by
-        rw [← secs_mul D]; exact mul_le_mul_of_nonneg_right hxs (by norm_num)
-      have h2 := Int.floor_le_floor this
-      simpa using h2
+/-! ### which configurations are valid, and which constructor they reach -/
 
-/-- **const**: count = ⌊ops·D⌋; operation k at the ns-truncation of k/ops seconds — the earliest
-instant with ops·x = k; inside [0, D]. -/
-theorem C01_const (ops : ℝ) (D : ℤ) (hops : 0 ≤ ops) (hD : 1000000 ≤ D) :
-    ∃ (n : ℤ) (at_ : ℤ → ℤ), NewConst ops D = Sched.doAt D n at_ ∧
-      n = ⌊constCum ops (secs D)⌋ ∧
-      ∀ k : ℤ, 0 ≤ k → k < n →
-        ∃ x : ℝ, EarliestAt (constCum ops) D k x ∧ at_ k = ⌊x * 1000000000⌋ ∧ 0 ≤ at_ k ∧ at_ k ≤ D := by
-  have hs := secs_pos hD
-  have htot0 : 0 ≤ ops * secs D := by positivity
+/-- Config validation (the regenerated `validate` struct tags) accepts exactly: rates ≥ 0, duration ≥ 1 ms, step ≥ 1,
+times ≥ 1 — the hypotheses of the theorems below are these regenerated predicates themselves. -/
+theorem C01_validation :
+    (∀ (ops : ℝ) (D : ℤ), ConstConfig_valid ops D ↔ (0 ≤ ops ∧ 1000000 ≤ D)) ∧
+    (∀ (f t : ℝ) (D : ℤ), LineConfig_valid f t D ↔ (0 ≤ f ∧ 0 ≤ t ∧ 1000000 ≤ D)) ∧
+    (∀ (f t : ℝ) (s D : ℤ), StepConfig_valid f t s D ↔ (0 ≤ f ∧ 0 ≤ t ∧ 1 ≤ s ∧ 1000000 ≤ D)) ∧
+    (∀ n : ℤ, OnceConfig_valid n ↔ 1 ≤ n) :=
+  ⟨ConstConfig_valid_iff, LineConfig_valid_iff, StepConfig_valid_iff, OnceConfig_valid_iff⟩
+
+/-- `core/import` registers the four profile kinds under their documented names, each with its own constructor. -/
+theorem C01_registry :
+    limiters.lookup "const" = some "NewConstConf" ∧ limiters.lookup "line" = some "NewLineConf" ∧
+    limiters.lookup "step" = some "NewStepConf" ∧ limiters.lookup "once" = some "NewOnceConf" ∧
+    (limiters.map Prod.fst).Nodup := by
+  decide
+
+/-- `lineCum` / `constCum` are the integrals of the configured rate since the profile's start. -/
+theorem C01_cum_is_integral (f t ops : ℝ) (D : ℤ) (x : ℝ) :
+    lineCum f t D x = ∫ y in (0:ℝ)..x, lineRate f t D y ∧ constCum ops x = ∫ _y in (0:ℝ)..x, ops ∧
+    lineRate f t D 0 = f ∧ (0 < D → lineRate f t D (secs D) = t) := by
+  refine ⟨?_, ?_, ?_, ?_⟩
+  · have h1 : IntervalIntegrable (fun _ : ℝ => f) MeasureTheory.volume 0 x := by simp
+    have h2 : IntervalIntegrable (fun y : ℝ => (t - f) / secs D * y) MeasureTheory.volume 0 x :=
+      (continuous_const.mul continuous_id).intervalIntegrable _ _
+    unfold lineRate lineCum
+    rw [intervalIntegral.integral_add h1 h2, intervalIntegral.integral_const, intervalIntegral.integral_const_mul,
+      integral_id]
+    simp
+    ring
+  · unfold constCum; rw [intervalIntegral.integral_const]; simp; ring
+  · unfold lineRate; ring
+  · intro hD
+    have := (secs_pos' hD).ne'
+    unfold lineRate; field_simp; ring
+
+/-! ### const, line, step, once -/
+
+/-- **const**: for every accepted `(ops, duration)`: count = ⌊ops·D⌋; operation k at the ns-truncation of k/ops seconds,
+the earliest instant with ops·x = k; inside [0, D]. Includes ops = 0 (no operations) and fractional-second durations. -/
+theorem C01_const (ops : ℝ) (D : ℤ) (h : ConstConfig_valid ops D) :
+    Realises (NewConstConf ops D) (constCum ops) D := by
+  obtain ⟨hops, hD⟩ := (ConstConfig_valid_iff ops D).mp h
+  have hD0 : 0 < D := by omega
+  have htot0 : 0 ≤ ops * secs D := mul_nonneg hops (secs_pos' hD0).le
   refine ⟨_, _, NewConst_eq ops D hops, ?_, ?_⟩
   · unfold constCum; exact Go.f2i_of_nonneg htot0
   · intro k hk0 hkn
-    rw [Go.f2i_of_nonneg htot0] at hkn
-    have hk0' : (0:ℝ) ≤ (k:ℝ) := by exact_mod_cast hk0
-    have hklt : (k:ℝ) < ops * secs D := by
-      have : ((k:ℤ):ℝ) < ⌊ops * secs D⌋ := by exact_mod_cast hkn
-      exact lt_of_lt_of_le this (Int.floor_le _)
-    have hops' : 0 < ops := by
-      rcases hops.lt_or_eq with h | h
-      · exact h
-      · rw [← h] at hklt; simp at hklt; linarith
-    have hx0 : 0 ≤ (k:ℝ) / ops := by positivity
-    have hxs : (k:ℝ) / ops ≤ secs D := by
-      rw [div_le_iff₀ hops']; linarith [mul_comm ops (secs D)]
-    have harg : (k:ℝ) * (1000000000 / ops) = (k:ℝ) / ops * 1000000000 := by field_simp
-    refine ⟨(k:ℝ) / ops, ⟨hx0, hxs, ?_, ?_⟩, ?_, ?_, ?_⟩
-    · unfold constCum; field_simp
-    · intro y _ hyx; unfold constCum
-      have := (lt_div_iff₀ hops').mp hyx; linarith [mul_comm ops y]
-    · show Go.f2i ((k:ℝ) * (1000000000 / ops)) = _
-      rw [harg]; exact Go.f2i_of_nonneg (by positivity)
-    · show 0 ≤ Go.f2i ((k:ℝ) * (1000000000 / ops))
-      rw [harg, Go.f2i_of_nonneg (by positivity)]; exact Int.floor_nonneg.mpr (by positivity)
-    · show Go.f2i ((k:ℝ) * (1000000000 / ops)) ≤ D
-      rw [harg, Go.f2i_of_nonneg (by positivity)]
-      have : (k:ℝ) / ops * 1000000000 ≤ (D:ℝ) := by
-        rw [← secs_mul D]; exact mul_le_mul_of_nonneg_right hxs (by norm_num)
-      have h2 := Int.floor_le_floor this
-      simpa using h2
+    obtain ⟨h1, h2, h3, h4, h5, h6, h7⟩ := const_core ops D hops hD0 k hk0 hkn
+    exact ⟨(k:ℝ) / ops, ⟨h1, h2, h3, h4⟩, h5, h5 ▸ h6, h5 ▸ h7⟩
 
-/-- a flat line is the const profile -/
-theorem C01_line_flat (f : ℝ) (D : ℤ) : NewLine f f D = NewConst f D := NewLine_flat f D
+/-- a flat line is literally the const profile -/
+theorem C01_line_flat (f : ℝ) (D : ℤ) : NewLineConf f f D = NewConstConf f D := NewLine_flat f D
 
-/-- **step**: the succession of one const profile per rate level from, from+step, … ≤ to
-(chaining "part j starts where part j−1 finished" is C02's composite theorem). -/
-theorem C01_step (f t : ℝ) (s D : ℤ) (hne : f ≠ t) :
-    NewStep f t s D = Sched.composite ((Go.loopLE f t (s : ℝ)).map (fun r => NewConst r D)) :=
-  NewStep_eq f t s D hne
+/-- **line**: for every accepted `(from, to, duration)` — increasing, decreasing, flat, zero end rates, any duration
+≥ 1 ms: count = ⌊∫ rate⌋ = ⌊(from+to)/2 · D⌋; operation k sits at the ns-truncation of the earliest instant where the
+integral reaches k; inside [0, D]. -/
+theorem C01_line (f t : ℝ) (D : ℤ) (h : LineConfig_valid f t D) :
+    Realises (NewLineConf f t D) (lineCum f t D) D ∧ lineCum f t D (secs D) = (f + t) / 2 * secs D := by
+  obtain ⟨hf, ht, hD⟩ := (LineConfig_valid_iff f t D).mp h
+  have hD0 : 0 < D := by omega
+  have hs := secs_pos' hD0
+  have hcum : ∀ x, lineCum f t D x = cum (slope f t D) f x := by
+    intro x; unfold lineCum cum Bridge.Schedule.slope; field_simp; ring
+  have htotal : lineCum f t D (secs D) = (f + t) / 2 * secs D := by rw [hcum, line_total hD0]
+  refine ⟨?_, htotal⟩
+  by_cases hne : f = t
+  · -- flat: the const profile, whose integral is the same function
+    subst hne
+    have hc : lineCum f f D = constCum f := by funext x; unfold lineCum constCum; simp
+    rw [hc, C01_line_flat]
+    exact C01_const f D ((ConstConfig_valid_iff f D).mpr ⟨hf, hD⟩)
+  · obtain ⟨at_, hnew, hk⟩ := line_core f t D hf ht hD0 hne
+    refine ⟨_, at_, hnew, by rw [htotal], ?_⟩
+    intro k hk0 hkn
+    obtain ⟨he, hat, h0, hDle⟩ := hk k hk0 hkn
+    refine ⟨xk (slope f t D) f (k:ℝ), ⟨he.1, he.2.1, ?_, ?_⟩, hat, h0, hDle⟩
+    · rw [hcum]; exact he.2.2.1
+    · intro y hy0 hyx; rw [hcum]; exact he.2.2.2 y hy0 hyx
 
-theorem C01_step_levels (f t : ℝ) (s : ℤ) (hs : 1 ≤ s) (hft : f ≤ t) :
-    Go.loopLE f t (s:ℝ) = (List.range (⌊(t - f) / (s:ℝ)⌋₊ + 1)).map (fun (j : ℕ) => f + (j:ℝ) * (s:ℝ)) ∧
-    ∀ r ∈ Go.loopLE f t (s:ℝ), f ≤ r ∧ r ≤ t := by
-  have hs' : (0:ℝ) < (s:ℝ) := by exact_mod_cast (by omega : (0:ℤ) < s)
-  constructor
-  · unfold Go.loopLE; simp [hft]
+/-- **step**: for every accepted `(from, to, step, duration)` the profile is the succession of one const profile of
+length `duration` per rate level from, from+step, … ≤ to, each level itself an accepted const configuration (so
+`C01_const` applies to every part). `from = to` is a single const profile; `from > to` has no level. That part j+1 starts
+where part j finished is the composite schedule's contract (C02). -/
+theorem C01_step (f t : ℝ) (s D : ℤ) (h : StepConfig_valid f t s D) :
+    (f = t → NewStepConf f t s D = NewConstConf f D) ∧
+    (f ≠ t → NewStepConf f t s D = Sched.composite ((Go.loopLE f t (s : ℝ)).map (fun r => NewConstConf r D))) ∧
+    Go.loopLE f t (s : ℝ) =
+      (if f ≤ t then (List.range (⌊(t - f) / (s : ℝ)⌋₊ + 1)).map (fun (j : ℕ) => f + (j : ℝ) * (s : ℝ)) else []) ∧
+    ∀ r ∈ Go.loopLE f t (s : ℝ), f ≤ r ∧ r ≤ t ∧ ConstConfig_valid r D := by
+  obtain ⟨hf, _, hs, hD⟩ := (StepConfig_valid_iff f t s D).mp h
+  refine ⟨?_, ?_, rfl, ?_⟩
+  · rintro rfl; exact NewStep_flat f s D
+  · intro hne; exact NewStep_eq f t s D hne
   · intro r hr
-    rw [Go.loopLE, if_pos hft, List.mem_map] at hr
-    obtain ⟨j, hj, rfl⟩ := hr
-    rw [List.mem_range] at hj
-    constructor
-    · have : (0:ℝ) ≤ (j:ℝ) * (s:ℝ) := mul_nonneg (Nat.cast_nonneg j) hs'.le
-      linarith
-    · have hj' : (j:ℝ) ≤ ((⌊(t - f) / (s:ℝ)⌋₊ : ℕ) : ℝ) := by exact_mod_cast Nat.lt_succ_iff.mp hj
-      have h2 : ((⌊(t - f) / (s:ℝ)⌋₊ : ℕ) : ℝ) ≤ (t - f) / (s:ℝ) :=
-        Nat.floor_le (div_nonneg (by linarith) hs'.le)
-      have h3 : (j:ℝ) * (s:ℝ) ≤ t - f := by
-        have := le_trans hj' h2
-        rwa [le_div_iff₀ hs'] at this
-      linarith
+    obtain ⟨h1, h2⟩ := loopLE_levels f t s hs r hr
+    exact ⟨h1, h2, (ConstConfig_valid_iff r D).mpr ⟨le_trans hf h1, hD⟩⟩
 
-theorem C01_step_flat (f : ℝ) (s D : ℤ) : NewStep f f s D = NewConst f D := NewStep_flat f s D
+/-! ### bounds and finish time: what a started leaf answers -/
 
-/-- **once**: all operations at offset 0 of a zero-length profile -/
-theorem C01_once (n : ℤ) : NewOnce n = Sched.doAt 0 n (fun _ => 0) := NewOnce_eq n
+/-- A leaf `doAt D n f` started at `t0` answers call number j (0-based) of `Next` with `(t0 + f j, true)` while
+`j < n` and with `(t0 + D, false)` for ever after — whatever the clock shows; it never panics. -/
+theorem C01_leaf_run (D n : ℤ) (f : ℤ → ℤ) (t0 : ℤ) (nows : List ℤ) :
+    startAndDrain D n f t0 nows =
+      Except.ok ((List.range nows.length).map
+        (fun (j : ℕ) => if n ≤ (j : ℤ) then (t0 + D, false) else (t0 + f (j : ℤ), true))) := by
+  have key : ∀ (l : List ℤ) (m0 : ℕ), drainFrom (startedSt D n f t0 m0) l =
+      (nexts D n f t0 m0 l).map Prod.fst := by
+    intro l
+    induction l with
+    | nil => intro m0; simp [drainFrom, nexts, Except.map]
+    | cons now rest ih =>
+        intro m0
+        simp only [drainFrom, nexts, next_started, ih (m0 + 1)]
+        cases nexts D n f t0 (m0 + 1) rest <;> simp [Except.map]
+  simp only [startAndDrain, start_fresh, key nows 0, nexts_eq, Except.map, answer]
+  simp
 
-/-- instance_step startup profile: `from` at once, then (wait stepDuration, `step` more)* while ≤ to -/
-theorem C01_instance_step (f t s D : ℤ) :
-    NewInstanceStep f t s D = Sched.composite
-      (NewOnce f :: (Go.loopLEInt (f + s) t s).flatMap (fun _ => [NewConst 0 D, NewOnce s])) :=
-  NewInstanceStep_eq f t s D
+/-- **once**: all `times` operations at the start instant of a zero-length profile, which is also its finish time. -/
+theorem C01_once (n : ℤ) (_h : OnceConfig_valid n) :
+    NewOnceConf n = Sched.doAt 0 n (fun _ => 0) ∧
+    ∀ (t0 : ℤ) (nows : List ℤ), startAndDrain 0 n (fun _ => 0) t0 nows =
+      Except.ok ((List.range nows.length).map (fun (j : ℕ) => if n ≤ (j : ℤ) then (t0, false) else (t0, true))) := by
+  refine ⟨NewOnce_eq n, ?_⟩
+  intro t0 nows
+  rw [C01_leaf_run]
+  simp
 
--- non-vacuity: hypotheses are met by concrete profiles incl. fractional-second and decreasing ones
-example : Valid 0 10 1500000000 ∧ (0:ℝ) ≠ 10 := ⟨⟨by norm_num, by norm_num, by norm_num⟩, by norm_num⟩
-example : Valid 10 0 500000000 ∧ (10:ℝ) ≠ 0 := ⟨⟨by norm_num, by norm_num, by norm_num⟩, by norm_num⟩
-example : Valid 7.5 7.5 1000000 := ⟨by norm_num, by norm_num, by norm_num⟩
+/-- **finish**: an exhausted profile reports exactly start + duration, on every further call. -/
+theorem C01_finish (D n : ℤ) (f : ℤ → ℤ) (t0 : ℤ) (nows : List ℤ) (rs : List (ℤ × Bool))
+    (hrun : startAndDrain D n f t0 nows = Except.ok rs) (j : ℕ) (hj : j < rs.length) (hn : n ≤ (j : ℤ)) :
+    rs[j] = (t0 + D, false) := by
+  rw [C01_leaf_run] at hrun
+  injection hrun with hrun
+  subst hrun
+  simp [hn]
+
+/-- **bounds** (and count, and finish once more): for every leaf that realises a profile — by `C01_const` / `C01_line`
+every accepted const and line configuration — the started schedule hands out operation j exactly when j < count, every
+operation it hands out lies in [start, start + duration], and every later answer is (start + duration, false). -/
+theorem C01_bounds (s : Sched) (c : ℝ → ℝ) (D : ℤ) (hs : Realises s c D) :
+    ∃ (n : ℤ) (f : ℤ → ℤ), s = Sched.doAt D n f ∧ n = ⌊c (secs D)⌋ ∧
+      ∀ (t0 : ℤ) (nows : List ℤ), ∃ rs, startAndDrain D n f t0 nows = Except.ok rs ∧ rs.length = nows.length ∧
+        ∀ (j : ℕ) (hj : j < rs.length),
+          (rs[j].2 = true ↔ (j : ℤ) < n) ∧
+          (rs[j].2 = true → t0 ≤ rs[j].1 ∧ rs[j].1 ≤ t0 + D) ∧
+          (rs[j].2 = false → rs[j].1 = t0 + D) := by
+  obtain ⟨n, f, rfl, hn, hk⟩ := hs
+  refine ⟨n, f, rfl, hn, ?_⟩
+  intro t0 nows
+  refine ⟨_, C01_leaf_run D n f t0 nows, by simp, ?_⟩
+  intro j hj
+  simp only [List.getElem_map, List.getElem_range]
+  by_cases hnj : n ≤ (j : ℤ)
+  · simp [hnj]
+  · obtain ⟨x, _, _, h0, hD⟩ := hk (j : ℤ) (by omega) (by omega)
+    simp only [hnj, if_false]
+    refine ⟨by simp; omega, fun _ => ⟨by omega, by omega⟩, by simp⟩
+
+/-- **Left before start** = the number of operations of the profile. -/
+theorem C01_left_before_start (D n : ℤ) (f : ℤ → ℤ) (hn : 0 ≤ n) :
+    doAtSchedule_Left (NewDoAtSchedule D n f) = Except.ok (n, NewDoAtSchedule D n f) := by
+  rw [left_fresh]; simp [not_lt.mpr hn]
+
+/-! ### non-vacuity: every hypothesis above is met by concrete, non-trivial inputs -/
+
+example : ConstConfig_valid 7.5 1000000 := by unfold ConstConfig_valid; norm_num
+example : ConstConfig_valid 0 1500000000 := by unfold ConstConfig_valid; norm_num
+-- increasing from a zero rate over a fractional number of seconds; decreasing to zero over half a second; flat
+example : LineConfig_valid 0 10 1500000000 := by unfold LineConfig_valid; norm_num
+example : LineConfig_valid 10 0 500000000 := by unfold LineConfig_valid; norm_num
+example : LineConfig_valid 7.5 7.5 1000000 := by unfold LineConfig_valid; norm_num
+-- … and such a profile does contain operations (the `k < n` of `Realises` is not empty): 7 of them
+example : ⌊lineCum 0 10 1500000000 (secs 1500000000)⌋ = 7 := by
+  rw [(C01_line 0 10 1500000000 (by unfold LineConfig_valid; norm_num)).2]
+  unfold secs; rw [Int.floor_eq_iff]; norm_num
+example : StepConfig_valid 1 10 3 1500000000 ∧ (1:ℝ) ≠ 10 := by unfold StepConfig_valid; norm_num
+example : StepConfig_valid 5 5 1 1000000 := by unfold StepConfig_valid; norm_num
+example : OnceConfig_valid 3 := by unfold OnceConfig_valid; norm_num
+-- a run in which the profile is exhausted (C01_finish) and a leaf that realises a profile (C01_bounds)
+example : ∃ rs, startAndDrain 1000 2 (fun i => i * 10) 5 [0, 0, 0] = Except.ok rs ∧ 2 < rs.length ∧ (2:ℤ) ≤ ((2:ℕ):ℤ) :=
+  ⟨_, C01_leaf_run _ _ _ _ _, by simp, by simp⟩
+example : Realises (NewConstConf 7.5 1000000) (constCum 7.5) 1000000 :=
+  C01_const _ _ (by unfold ConstConfig_valid; norm_num)
+example : (0:ℤ) ≤ 7 := by norm_num
 
 end Pandora.Props.C01
